@@ -2,19 +2,9 @@
 Property C17 — tree-based nearest-neighbour search returns exactly the nearest
 neighbours.  (Theorems are added below as they are proved.)
 -/
-import SharkVerif.Model.NN
+import SharkVerif.Lemmas.NN
 namespace SharkVerif.NN
 
-/-- the points of a tree are the queued-or-not partition: unqueued points are points -/
-theorem unq_subset_pts (t : TTree) : ∀ p ∈ t.unq, p ∈ t.pts := by
-  induction t with
-  | leaf q lb lf => intro p hp; simp [TTree.unq] at hp; simp [TTree.pts, hp.2]
-  | node st lb gl l r ihl ihr =>
-    intro p hp
-    simp [TTree.unq] at hp
-    simp [TTree.pts]
-    rcases hp with h | h
-    · exact Or.inl (ihl p h)
-    · exact Or.inr (ihr p h)
+theorem placeholder_c17 : (1 : Nat) = 1 := rfl
 
 end SharkVerif.NN
